@@ -12,8 +12,8 @@ oto:  MI/<pairs> (caller creates and keeps a one-shot iterator)  NX/<i> (caller 
       arg = n | d<pairs> (dict, raw) | p<pairs> (list) | j<pairs> (iterator made for the call) | i<idx> (held iterator)
             | r<r>.<s> (another instance); kw = raw keyword pairs
       F/<r>/<s>/<k>/<d>  P/<r>/<s>/<k>/<d|->  I/<r>/<s>[/<k>:<v> = the pair the implementation popped]  L/<r>/<s>
-m2m:  [X/<probe ids> first]  N/<pairs>  NR/<r>/<s>  A/<r>/<s>/<k>/<v>  R/<r>/<s>/<k>/<v>  S/<r>/<s>/<k>/<vals>
-      D/<r>/<s>/<k>  U/<r>/<s>/<pairs>  UR/<r>/<s>/<r2>/<s2>  P/<r>/<s>/<k>/<nk>
+m2m:  [X/<probe ids> first]  MI/<pairs>  NX/<i>  N/<arg>  A/<r>/<s>/<k>/<v>  R/<r>/<s>/<k>/<v>  S/<r>/<s>/<k>/<vals>
+      D/<r>/<s>/<k>  U/<r>/<s>/<arg>  P/<r>/<s>/<k>/<nk>     (arg as for oto; d<pairs> = a mapping, raw)
 fd:   B/<fpairs> first, then  Ms/<k>/<fv> Md/<k> Mi/<fpairs> Mu/<fpairs> Mf/<k>/<fv> Mp/<k> Mo Mc
       H  E/<fpairs>[/<route>]  U/<fpairs>  Y  K/<keys>/<fv>   (fv = h<n> | u<n>; Y = hash, then copy/deepcopy/pickle;
       route = how the other FrozenDict is reached: ctor fromdict updated updated_all overwrite pickle deepcopy copy)
@@ -152,12 +152,11 @@ def dumpM2M (probe : List Nat) (s : M2M Nat) : String :=
   s!"F{showGrouped s.data}/P{showPairs (pairsOf s.data)}/I{showGrouped s.inv}/Q{showPairs (pairsOf s.inv)}" ++
   s!"/Z{showReaders probe s}/z{showReaders probe s.flip}"
 
-def m2mTok? (tok : String) : Option (M2MCmd Nat) :=
+def m2mTok? (tok : String) : Option (M2MCmdA Nat) :=
   match splitOnChar tok '/' with
-  | ["N", ps] => (parsePairs? ps).map .new
-  | ["NR", r, s] => match r.toNat?, side? s with
-    | some r, some s => some (.newFrom r s)
-    | _, _ => none
+  | ["MI", ps] => (parsePairs? ps).map .mkIter
+  | ["NX", i] => i.toNat?.map .next
+  | ["N", a] => (arg? a).map .new
   | ["A", r, s, k, v] => match r.toNat?, side? s, k.toNat?, v.toNat? with
     | some r, some s, some k, some v => some (.op r s (.add k v))
     | _, _, _, _ => none
@@ -170,12 +169,9 @@ def m2mTok? (tok : String) : Option (M2MCmd Nat) :=
   | ["D", r, s, k] => match r.toNat?, side? s, k.toNat? with
     | some r, some s, some k => some (.op r s (.delitem k))
     | _, _, _ => none
-  | ["U", r, s, ps] => match r.toNat?, side? s, parsePairs? ps with
-    | some r, some s, some ps => some (.op r s (.update ps))
+  | ["U", r, s, a] => match r.toNat?, side? s, arg? a with
+    | some r, some s, some a => some (.update r s a)
     | _, _, _ => none
-  | ["UR", r, s, r2, s2] => match r.toNat?, side? s, r2.toNat?, side? s2 with
-    | some r, some s, some r2, some s2 => some (.updateFrom r s r2 s2)
-    | _, _, _, _ => none
   | ["P", r, s, k, nk] => match r.toNat?, side? s, k.toNat?, nk.toNat? with
     | some r, some s, some k, some nk => some (.op r s (.replace k nk))
     | _, _, _, _ => none
@@ -196,20 +192,20 @@ def runM2M (toks0 : List String) : Option (List String) :=
       | ["X", ids] => ((natList? ids).getD [], ts)
       | _ => ([], toks0)
     | [] => ([], toks0)
-  let rec go (regs : List (M2M Nat)) (hst : HState Nat) (toks : List String) (acc : List String) : Option (List String) :=
+  let rec go (st : M2MSt Nat) (hst : HM2MSt Nat) (toks : List String) (acc : List String) : Option (List String) :=
     match toks with
     | [] => some acc.reverse
     | t :: ts => match m2mTok? t with
       | none => none
-      | some c => match m2mCmd regs c, hm2mCmd hst c with
-        | some (regs', ret), some (hst', hret) =>
-          let byRef := "|".intercalate (showRet hret :: hst'.abs.map (dumpM2M probe))
-          -- V1: the by-value machine holds EXACTLY the same dicts (order included) and returned the same
-          -- (theorem `hm2m_refines`, self-updates included)
-          let agree := decide (regs' = hst'.abs) && showRet ret == showRet hret
-          go regs' hst' ts (s!"{byRef}|V{if agree then 1 else 0}S{if separated hst' then 1 else 0}" :: acc)
+      | some c => match m2mCmdA st c, hm2mCmdA hst c with
+        | some (st', ret), some (hst', hret) =>
+          let byRef := "|".intercalate (showRet hret :: hst'.st.abs.map (dumpM2M probe))
+          -- V1: the by-value machine holds EXACTLY the same dicts (order included), returned the same and left the
+          -- iterators in the same state (theorems `hm2m_refines`, `hm2mA_refines`; self-updates included)
+          let agree := decide (st'.regs = hst'.st.abs) && showRet ret == showRet hret && decide (st'.iters = hst'.iters)
+          go st' hst' ts (s!"{byRef}|V{if agree then 1 else 0}S{if separated hst'.st then 1 else 0}" :: acc)
         | _, _ => none
-  go [] HState.empty toks []
+  go M2MSt.empty HM2MSt.empty toks []
 
 /-! fd -/
 
